@@ -1,7 +1,7 @@
 """C13 — point containment predicates (structural clauses)."""
 from . import scopes
 from ..core.report import DOMAIN_D
-from ..rules import colliders, frame, degree, affine, unpack, purity, onsegment, misc2
+from ..rules import colliders, frame, degree, affine, unpack, purity, onsegment, misc2, safediv
 from .common import e2
 
 MODS = {"distance3d.containment_test", "distance3d.utils"}
@@ -25,4 +25,5 @@ def run(idx, rep, tier):
     purity.r_pureargs(idx, rep, ["distance3d.containment_test", "distance3d.utils"], floor=5)
     onsegment.r_halfsize(idx, rep, ["distance3d.containment_test"] + [x.name for x in idx.lib_modules() if x.name.startswith("distance3d.distance")], floor=3)
     misc2.r_dupcond(idx, rep, [m.name for m in idx.lib_modules()], floor=3)
+    safediv.r_sqrtdomain(idx, rep, modules=["distance3d.containment_test"], floor=0, unknown_ceiling=2, sqrt_calls=("np.sqrt", "math.sqrt"))
     unpack.r_unpack(idx, rep, floor=1)
